@@ -19,7 +19,7 @@ from mc.core import require, Violation
 PROPERTY = 'C10'
 LEVEL = 'model_checking'
 
-COHORTS = {'A': [0], 'B': [1], 'AB': [0, 1], 'AC': [0, 2], 'BA': [1, 0]}
+COHORTS = {'A': [0], 'B': [1], 'AB': [0, 1], 'AC': [0, 2], 'BA': [1, 0], 'A2': [3]}  # index 3: client id of A, other data
 SYSTEMS = {
     'fed_avg': ('fed_avg', {}),
     'fed_prox': ('fed_prox', {'mu': 0.5}),
@@ -54,13 +54,19 @@ def explore(case):
   alg, init = systems.build(bname, **kw)
   from fedjax.core import serialization
   pop = algos.population([2, 3, 0], case.get('seed', 0))
+  # a returning client id whose local data changed since its last participation
+  other = algos.population([2, 3, 0, 3], case.get('seed', 0) + 5)[3]
+  pop.append((pop[0][0], other[1], pop[0][2]))
   tmp = tempfile.mkdtemp(prefix='c10_')
   stats = {'states': 1, 'transitions': 0, 'fresh': 0}
   outs = set()
   fresh_depth = case.get('fresh_depth', 1)
   try:
+    fresh_root = [None]
+    saved_depth = [depth]
+
     def rec(hist, state):
-      if len(hist) >= depth:
+      if len(hist) >= saved_depth[0]:
         return
       for name, idxs in COHORTS.items():
         h2 = hist + [name]
@@ -71,6 +77,11 @@ def explore(case):
         snap = algos.tree_np(state)
         path = os.path.join(tmp, 'st')
         serialization.save_state(state, path)
+        # a round that aborts half way (transient failure in a later client) must leave nothing behind: the retry
+        # below is compared with a second call, with the restored copy and with a fresh algorithm object
+        if algos.aborted_round(alg, state, cohort):
+          stats['aborted'] = stats.get('aborted', 0) + 1
+          readable_equal(state, snap, 'after an aborted round', nc)
         new, diag = alg.apply(state, cohort)
         readable_equal(state, snap, 'after apply', nc)
         new_snap, diag_snap = algos.tree_np(new), algos.tree_np(diag)
@@ -90,6 +101,8 @@ def explore(case):
         # (4) a fresh algorithm object replaying only this history
         if len(h2) <= fresh_depth:
           falg, fstate = systems.build(bname, fresh=True, **kw)
+          if fresh_root[0] is not None:
+            fstate = fresh_root[0](falg)
           for nm in h2:
             fstate, _ = falg.apply(fstate, [pop[i] for i in COHORTS[nm]])
           same(fstate, new_snap, 'a fresh algorithm object replaying this history disagrees with the long-lived object '
@@ -102,14 +115,31 @@ def explore(case):
                               if np.asarray(l).dtype.kind == 'f']))
         rec(h2, new)
     rec([], init)
+    # a second root (other initial parameters) served by the SAME long-lived object: anything the object memoised
+    # while serving the first root is stale here; fresh objects replay from this root as well
+    import jax
+    p1 = algos.jparams({'w': [-1.0, 0.75], 'b': -0.25})
+    if sysname == 'hyp_cluster':
+      root2 = alg.init([p1] + [jax.tree_util.tree_map(lambda x: x + 1.0, p1)] * (len(init.cluster_params) - 1))
+    else:
+      root2 = alg.init(p1)
+    fresh_root[0] = lambda a: a.init(p1) if sysname != 'hyp_cluster' else a.init(
+        [p1] + [jax.tree_util.tree_map(lambda x: x + 1.0, p1)] * (len(init.cluster_params) - 1))
+    depth2 = min(depth, 2)
+    saved_depth[0] = depth2
+    rec([], root2)
   finally:
     shutil.rmtree(tmp, ignore_errors=True)
   return {'evals': stats['transitions'] * 3 + stats['fresh'], 'states': stats['states'], 'transitions': stats['transitions'],
           'traces': stats['transitions'], 'outcomes': sorted(outs), 'nontrivial': True,
           'keys': [[sysname, i] for i in range(stats['transitions'])],
-          'stats': {'fresh_object_replays': stats['fresh']},
+          'stats': {'fresh_object_replays': stats['fresh'], 'aborted_rounds_before_retry': stats.get('aborted', 0)},
           'sample': {'system': sysname, 'depth': depth, 'transitions': stats['transitions'],
                      'distinct_states': len(outs)}}
+
+
+class _StreamError(Exception):
+  pass
 
 
 def _trees(kind, n, seed):
@@ -133,6 +163,19 @@ def aggregators(case):
         tsnap = algos.tree_np(trees)
         inputs = [(b'c%d' % i, t, float(i + 1)) for i, t in enumerate(trees)]
         snap = algos.tree_np(state)
+        # an apply whose client stream fails half way must leave nothing behind in the aggregator object
+        if n > 1:
+          def failing(k=1 + r % (n - 1)):
+            for j, item in enumerate(inputs):
+              if j == k:
+                raise _StreamError()
+              yield item
+          try:
+            agg.apply(failing(), state)
+            raise Violation('aggregator.apply swallowed an exception raised by the client stream', case=nc)
+          except _StreamError:
+            pass
+          readable_equal(state, snap, 'aggregator state after an interrupted apply', nc)
         out, new = agg.apply(iter(inputs), state)
         readable_equal(state, snap, 'aggregator state after apply', nc)
         out_snap, new_snap = algos.tree_np(out), algos.tree_np(new)
